@@ -301,6 +301,12 @@ def stateful(ctx, rng):
     b = rng.choice([b"bb", b"boundary"])
     fa, fb = MC.gen_form(rng, boundary=b), MC.gen_form(rng, boundary=b)
     (ba, _), (bb, _) = MC.encode(fa), MC.encode(fb)
+    try:
+        alone = [norm(parse_stream(iter([x]), b, "utf8", file_factory=UploadFile)) for x in (ba, bb)]
+    except Exception:
+        alone = None
+    if alone != [MC.expected(fa), MC.expected(fb)]:
+        return None  # already wrong when parsed alone: the plain paths report that, state is not to blame
     size = rng.choice([1, 5, 17])
     ca = [ba[i:i + size] for i in range(0, len(ba), size)]
     cb = [bb[i:i + size] for i in range(0, len(bb), size)]
